@@ -70,3 +70,15 @@ C("C12",
   "Trusted: each type's own PartialEq; FRI proofs come from the real FriProver.",
   "round-trip monitor over three reader implementations with exact-consumption accounting",
   "DESIGN.md §5 C12")
+
+C("C05",
+  "A library of nine prover strategies (honest folding of a far function, remainder interpolated through the queried points after seeing them, remainder plus a multiple of the vanishing polynomial of the queried points, oversized remainder, tampered layer value, folding one layer with a wrong challenge, omitted layer, swapped layers, too-small degree claim) is run against the stand-alone FRI verifier on random functions, polynomials of degree bound+1..domain-1 and low-degree polynomials corrupted on 1/4..3/4 of the domain, for folding factors 2..16, blowups 2..32, base/quadratic/cubic fields and all hashers, with 100 queries (acceptance probability of honest folding <= 2^-40). Every case must be rejected or fail to parse; an acceptance under honest folding is cross-examined by an independent recomputation of the final consistency condition. This is exploration over a finite strategy library, not a soundness proof.",
+  "Trusted: construction of far functions; library FFT (C09) and apply_drp (C15) for building instances. Strategies that need more final positions than remainder coefficients are skipped and counted.",
+  "adversarial strategy-library workload with a reject oracle (+ independent recomputation for lucky acceptances)",
+  "DESIGN.md §5 C05")
+
+C("C15",
+  "Honest FRI proofs for polynomials of degree 0, 1, bound-1, exactly the bound, zero and random are generated for blowups 2..128, folding 2..16, remainder degrees 0..255, polynomial sizes 2^0..2^10 (degree bounds 0 and 1 forced in), position lists with duplicates / collisions after folding / 1..255 positions, eight field-extension-hasher configurations, with the prover instance reused; each must verify directly and after the FriProof byte round trip. apply_drp<2/4/8/16> is compared with the coefficient-domain definition of folding on direct evaluations; fold_positions, map_positions_to_indexes and num_fri_layers with their closed forms.",
+  "Trusted: direct polynomial evaluation with the library field operations; only well-formed schedules are generated.",
+  "acceptance monitor over generated honest instances + reference-model comparison of the folding step",
+  "DESIGN.md §5 C15")
